@@ -64,7 +64,9 @@ struct Env {
         insidelog.push_back({x, r});
         return r;
     }
+    long throw_at = -1, fcalls = 0; bool thrown = false; // fault: the objective fails (as the C/Python wrappers do on a callback error) at the n-th call
     void f(const std::vector<double> &xb, std::vector<double> &fv) {
+        if (fcalls++ == throw_at) { thrown = true; if (st) st->inc("fault.objective_throws"); throw std::runtime_error("simulated failure of the objective callback"); }
         // the batch must be exactly the points the domain test accepted since the previous objective call
         std::vector<double> expect; std::vector<size_t> slots;
         for (size_t k = inside_consumed; k < insidelog.size(); k++) if (insidelog[k].second) { expect.insert(expect.end(), insidelog[k].first.begin(), insidelog[k].first.end()); slots.push_back(k); }
@@ -81,7 +83,7 @@ struct Env {
             eval_slot.push_back(k < slots.size() ? slots[k] : (size_t)-1);
         }
     }
-    void resetLogs() { insidelog.clear(); inside_consumed = 0; evals.clear(); eval_slot.clear(); }
+    void resetLogs() { insidelog.clear(); inside_consumed = 0; evals.clear(); eval_slot.clear(); fcalls = 0; thrown = false; throw_at = -1; }
 };
 
 struct Swarm {
@@ -93,13 +95,15 @@ struct Swarm {
     std::vector<Visit> cur;                  // last evaluated current position per particle (f = NaN if not inside / unknown)
     std::vector<char> cur_inside;
     bool cur_valid = false;
+    bool cur_unevaluated = false;            // the cached current positions were never evaluated (the objective failed for that batch)
     bool bests_manual = false;               // the user supplied every best strip (setBestParticlePositions)
 
     void call(int iters) {
         auto f = [this](const std::vector<double> &x, std::vector<double> &y) { env.f(x, y); };
         auto ins = [this](const std::vector<double> &x) -> bool { return env.inside(x); };
         auto gen = [this]() -> double { return env.gen(); };
-        TasOptimization::ParticleSwarm(f, ins, iw, cc, sc, iters, *s, gen);
+        try { TasOptimization::ParticleSwarm(f, ins, iw, cc, sc, iters, *s, gen); }
+        catch (std::runtime_error &) { if (!env.thrown) throw; } // the caller catches the failure of its own callback and carries on with the same state
     }
 };
 
@@ -133,6 +137,7 @@ public:
             o["iters"] = w.range(0, 6);
             o["edit"] = k + 1 < ncalls ? w.pick<std::string>({"none", "none", "clearCache", "clearBest", "clearBest", "clearBest+clearCache", "setPositions+clearCache", "setBest+clearCache", "setVelocities", "setPositions", "setBest"}) : std::string("none");
             o["edit_seed"] = (long long)(w.next() >> 1);
+            o["throw_at"] = w.chance(0.08) ? w.range(0, 4) : -1; // the objective fails at its n-th call inside this ParticleSwarm() call
             ops.push(o);
         }
         p["ops"] = ops;
@@ -180,6 +185,11 @@ public:
         std::vector<std::pair<size_t, int>> batches; // (size, kind: 0 positions, 1 bests)
         if (!cacheInitBefore) { batches.push_back({np, 0}); if (bestInitBefore) batches.push_back({np + 1, 1}); }
         for (int k = 0; k < std::max(iters, 0); k++) batches.push_back({np, 0});
+        if (e.thrown) { // the call was cut short by the failing objective: keep the batches whose domain tests happened, the last one has no values
+            size_t a = 0, nb = 0; while (nb < batches.size() && a < e.insidelog.size()) { a += batches[nb].first; nb++; }
+            batches.resize(nb);
+            st.inc("reach.call_interrupted_by_failing_objective");
+        }
         size_t expectTests = 0; for (auto &b : batches) expectTests += b.first;
         if (e.insidelog.size() != expectTests) {
             char b[160]; snprintf(b, sizeof b, "%zu domain tests in the call, the documented algorithm needs %zu", e.insidelog.size(), expectTests);
@@ -188,7 +198,11 @@ public:
         std::vector<char> emptyBefore(np + 1); for (size_t i = 0; i <= np; i++) emptyBefore[i] = S.visited[i].empty();
         // map each in-domain evaluation to (batch, slot)
         std::vector<size_t> start; { size_t a = 0; for (auto &b : batches) { start.push_back(a); a += b.first; } }
-        for (size_t k = 0; k < e.evals.size(); k++) {
+        // a call cut short during the cache set-up never reached update(): its evaluations are repeated by the next call and do not count yet
+        size_t ninit = cacheInitBefore ? 0 : (bestInitBefore ? 2 : 1);
+        bool discard = e.thrown && batches.size() <= ninit;
+        if (discard) st.inc("reach.interrupted_during_cache_setup");
+        for (size_t k = 0; k < e.evals.size() && !discard; k++) {
             size_t pos = e.eval_slot[k];
             if (pos == (size_t)-1) return "outside-eval|objective batch larger than the set of accepted points";
             size_t bi = 0; while (bi + 1 < batches.size() && start[bi + 1] <= pos) bi++;
@@ -200,7 +214,8 @@ public:
                 S.visited[slot].push_back(v); if (slot < np) S.visited[np].push_back(v); st.inc("reach.best_reevaluated");
             }
         }
-        for (auto &b : batches) if (b.second == 1) S.bests_manual = false;
+        if (!discard) for (auto &b : batches) if (b.second == 1) S.bests_manual = false;
+        if (discard) return ""; // nothing else changed: bests, positions and the record are as before the call
         // current cached positions = last positions batch
         int lastPosBatch = -1; for (size_t bi = 0; bi < batches.size(); bi++) if (batches[bi].second == 0) lastPosBatch = (int)bi;
         if (lastPosBatch >= 0) {
@@ -209,6 +224,8 @@ public:
                 S.cur[i].x = il.first; S.cur_inside[i] = il.second; S.cur[i].f = il.second ? e.obj(il.first.data()) : 0.0;
             }
             S.cur_valid = true;
+            // interrupted in a positions batch: those positions were tested but the objective never returned for them
+            S.cur_unevaluated = e.thrown && (size_t)lastPosBatch + 1 == batches.size();
         }
         // the positions the state reports must be the last ones tested (nothing evaluated that the state does not hold)
         std::vector<double> P = S.s->getParticlePositions();
@@ -243,8 +260,9 @@ public:
         Rng r(seed);
         st.inc("edit." + edit);
         auto clearBestModel = [&](bool cacheKept) {
+            S.bests_manual = false; // the user's strips are gone
             for (auto &v : S.visited) v.clear();
-            if (cacheKept && S.cur_valid) for (size_t i = 0; i < np; i++) if (S.cur_inside[i]) { S.visited[i].push_back(S.cur[i]); S.visited[np].push_back(S.cur[i]); }
+            if (cacheKept && S.cur_valid && !S.cur_unevaluated) for (size_t i = 0; i < np; i++) if (S.cur_inside[i]) { S.visited[i].push_back(S.cur[i]); S.visited[np].push_back(S.cur[i]); }
         };
         if (edit == "clearCache") { S.s->clearCache(); }
         else if (edit == "clearBest") { S.s->clearBestParticles(); clearBestModel(S.s->isCacheInitialized()); }
@@ -272,19 +290,20 @@ public:
     // runs the op list; if merge is true, consecutive calls separated by edit "none" are merged into one call
     bool runOps(const Json &p, bool merge, bool check, Stats &st, Outcome &out, Swarm &S) {
         setup(S, p, st);
-        std::vector<std::pair<int, std::string>> ops; std::vector<uint64_t> seeds;
-        if (p.has("ops")) for (auto const &o : p.at("ops").a) { ops.push_back({(int)std::max<int64_t>(0, o.geti("iters", 0)), o.gets("edit", "none")}); seeds.push_back((uint64_t)o.geti("edit_seed", 1)); }
+        std::vector<std::pair<int, std::string>> ops; std::vector<uint64_t> seeds; std::vector<long> throws;
+        if (p.has("ops")) for (auto const &o : p.at("ops").a) { ops.push_back({(int)std::max<int64_t>(0, o.geti("iters", 0)), o.gets("edit", "none")}); seeds.push_back((uint64_t)o.geti("edit_seed", 1)); throws.push_back((long)o.geti("throw_at", -1)); }
         if (merge) {
-            std::vector<std::pair<int, std::string>> m; std::vector<uint64_t> ms;
+            std::vector<std::pair<int, std::string>> m; std::vector<uint64_t> ms; std::vector<long> mt;
             for (size_t k = 0; k < ops.size(); k++) {
-                if (!m.empty() && m.back().second == "none") { m.back().first += ops[k].first; m.back().second = ops[k].second; ms.back() = seeds[k]; }
-                else { m.push_back(ops[k]); ms.push_back(seeds[k]); }
+                if (!m.empty() && m.back().second == "none" && mt.back() < 0 && throws[k] < 0) { m.back().first += ops[k].first; m.back().second = ops[k].second; ms.back() = seeds[k]; }
+                else { m.push_back(ops[k]); ms.push_back(seeds[k]); mt.push_back(throws[k]); }
             }
-            ops = m; seeds = ms;
+            ops = m; seeds = ms; throws = mt;
         }
         std::string lastEdit = "start";
         for (size_t k = 0; k < ops.size(); k++) {
             S.env.resetLogs();
+            S.env.throw_at = throws[k];
             bool ci = S.s->isCacheInitialized(), bi = S.s->isBestPositionInitialized();
             S.call(ops[k].first);
             if (check) {
